@@ -391,10 +391,12 @@ pub fn run(tier: &str) -> Result<Report, String> {
         let mut g = Gen::new(Alphabet::all_ops(ctx.nprops(), 3));
         let mut fs = g.closed_up_to(if tier == "quick" && ["imp1", "con2"].contains(&b.name.as_str()) { 4 } else { m });
         fs.extend(templates(&ctx.user, false, pool));
-        if tier != "quick" || ["imp1", "con2"].contains(&b.name.as_str()) {
+        // (families written with the literal proposition names a / b only on networks that have them)
+        let ab = b.spec.vars[0] == "a" && (b.n == 1 || b.spec.vars[b.n - 1] == "b" || b.spec.vars.contains(&"b".to_string()));
+        if ab && (tier != "quick" || ["imp1", "con2"].contains(&b.name.as_str())) {
             fs.extend(crate::formulas::shared_operand_family(&ctx.user));
         }
-        if b.n >= 2 && tier != "quick" {
+        if ab && b.n >= 2 && tier != "quick" {
             fs.extend(crate::formulas::pair_family(&crate::formulas::plain_pool(&ctx.user), 8, false));
         }
         let bad: Vec<Violation> = fs
